@@ -129,7 +129,7 @@ Theorem C17_frame : forall c id total vals s s',
 Proof. exact C17_frame_proof. Qed.
 Print Assumptions C17_frame.
 
-(* Parameter updates (exomint / feedistribution MsgUpdateParams, with or without ValidateBasic, right or wrong authority,
+(* Updates of the module params (exomint / feedistribution MsgUpdateParams, with or without ValidateBasic, right or wrong authority,
    ANY requested identifier and reward): the identifier left in force always names an epoch of the epochs store, and the
    reward stays non-negative — over every sequence of updates. *)
 Theorem C17_update_keeps_epoch : forall known reqs prev,
